@@ -128,6 +128,25 @@ def defer_action_machines():
                     row(13, 1, 4, "none", act="call"), row(14, 1, 5, "none", act="call"), row(15, 1, 6, 0, act="call")])
     return [("defer_action_sub", md, opss), ("defer_action_root", mdef(flat, 4), [opss[0]])]
 
+def base_event_machines():
+    """event hierarchy e4 <- e5 <- e6 (e6 derives from e5 derives from e4).  The innermost machine reacts to the derived
+    events only through rows on a base class; the exact types occur nowhere below the outermost machine: the event must
+    still be offered to the submachines (depth 2 and 3), and the outer fallback row runs only if nothing was taken inside"""
+    out = []
+    for name, depth in (("base_forward_2", 2), ("base_forward_3", 3)):
+        inner = machine([state(), state()], [0],
+                        [row(30, 0, 4, 1, act="call"), row(31, 1, 5, 0, act="call"), row(32, 1, 4, "none", guard=True, act="call")])
+        mid = machine([state(sub=inner), state()], [0], [row(20, 0, 7, 1), row(21, 1, 7, 0)])
+        top_sub = mid if depth == 3 else inner
+        root = machine([state(sub=top_sub), state()], [0], [row(1, 0, 6, 1, guard=True, act="call"), row(2, 1, 7, 0, act="call")])
+        md = mdef(root, 4, parents={5: 4, 6: 5})
+        opss = []
+        for val in ([], [1], [32], [1, 32]):
+            opss.append([("start", [], []), ("process", 6, 1, val, []), ("process", 6, 2, val, []), ("process", 5, 3, val, []),
+                         ("process", 4, 4, val, []), ("process", 6, 5, val, []), ("process", 7, 6, val, []), ("process", 6, 7, val, [])])
+        out.append((name, md, opss))
+    return out
+
 def block_machines():
     """a region enters a terminate / interrupt state on an event to which later regions react as well"""
     out = []
@@ -217,6 +236,20 @@ def fork_machines():
                ("process", 4, 4, [], []), ("process", 6, 5, [], []), ("process", 8, 6, [], []), ("process", 7, 7, [], []),
                ("process", 6, 8, [], []), ("process", 9, 9, [], []), ("process", 6, 10, [], []), ("process", 4, 11, [], [])]
         out.append(("fork_partial_" + hname, md, [ops]))
+    # the same shape with explicit_entry<> (no region index): back infers the region of the named states from the
+    # table (backmp11 requires the index)
+    a1 = state(zone=0); a1["explicit"] = True; a1["explicit_auto"] = True
+    b1 = state(zone=1); b1["explicit"] = True; b1["explicit_auto"] = True
+    sub = machine([state(zone=0), a1, state(zone=1), b1, state(zone=2), state(zone=2)], [0, 2, 4],
+                  [row(10, 0, 5, 1), row(11, 2, 5, 3), row(12, 4, 7, 5, act="call"), row(13, 5, 7, 4), row(14, 1, 5, 0), row(15, 3, 5, 2)])
+    root = machine([state(), state(sub=sub)], [0],
+                   [row(1, 0, 4, ["direct", 1, [1, 3]], act="call"), row(2, 1, 6, 0), row(3, 0, 8, 1), row(4, 0, 9, ["direct", 1, [1]]),
+                    row(5, 0, 7, ["direct", 1, [3]])])
+    md = mdef(root, 6)
+    ops = [("start", [], []), ("process", 9, 1, [], []), ("process", 5, 2, [], []), ("process", 6, 3, [], []),
+           ("process", 7, 4, [], []), ("process", 5, 5, [], []), ("process", 6, 6, [], []), ("process", 4, 7, [], []),
+           ("process", 7, 8, [], []), ("process", 6, 9, [], []), ("stop", [])]
+    out.append(("fork_auto_region", md, [ops], ["back", "back_fct"]))      # back11: the inference does not compile with Fusion tables
     return out
 
 def throw_machines():
@@ -364,8 +397,9 @@ def rowkind_machines():
 def main():
     os.makedirs(os.path.join(VERIF, "corpus"), exist_ok=True)
     n = 0
-    for name, md, opss in fwd_machines() + ortho_machines() + defer_code_machines() + defer_action_machines() + block_machines() + pseudo_machines() + fork_machines() + throw_machines() + throw_nested_machines() + copy_history_machines() + save_pseudo_machines() + rowkind_machines():
-        save(name, md, opss)
+    for item in fwd_machines() + ortho_machines() + defer_code_machines() + defer_action_machines() + base_event_machines() + block_machines() + pseudo_machines() + fork_machines() + throw_machines() + throw_nested_machines() + copy_history_machines() + save_pseudo_machines() + rowkind_machines():
+        name, md, opss = item[:3]
+        save(name, md, opss, cfgs=item[3] if len(item) > 3 else None)
         n += 1
     print("wrote %d corpus machines" % n)
 
